@@ -455,6 +455,7 @@ fn outcome(ex: &Exec) -> String {
 
 pub fn run(ctx: &Ctx) -> ! {
     let thorough = ctx.tier.is_thorough();
+    EXPLORE_BUDGET_MS.store(if thorough { 900_000 } else { 60_000 }, std::sync::atomic::Ordering::Relaxed);
     let evals = AtomicU64::new(0);
     let nontrivial = AtomicU64::new(0);
     let mut violations: Vec<Violation> = Vec::new();
@@ -530,7 +531,7 @@ pub fn run(ctx: &Ctx) -> ! {
         for o in &out.outcomes {
             states.insert(format!("{name}#{o}"));
         }
-        per.push(json!({"programs": name, "preemption_bound": bound, "schedules": out.schedules, "distinct_outcomes": out.outcomes.len(), "distinct_system_states": out.distinct_states, "max_points": out.max_points}));
+        per.push(json!({"programs": name, "preemption_bound": bound, "schedules": out.schedules, "distinct_outcomes": out.outcomes.len(), "distinct_system_states": out.distinct_states, "max_points": out.max_points, "capped": out.stopped_early}));
         let mut vs = out.violations;
         vs.sort_by_key(|v| v.detail["history"]["schedule"].as_array().map_or(0, Vec::len));
         let mut seen: BTreeSet<String> = BTreeSet::new();
